@@ -37,6 +37,11 @@ def _attack(item):
     return cfg, desc, mode, vlib.tlc(MODULE, cfg, workers=2, timeout=900)
 
 
+def _attacks():
+    with concurrent.futures.ThreadPoolExecutor(max_workers=3) as ex:
+        return list(ex.map(_attack, ATTACKS))
+
+
 def run(tier, seed):
     t0 = time.time()
     T = _tier(tier)
@@ -50,9 +55,9 @@ def run(tier, seed):
     with concurrent.futures.ThreadPoolExecutor(max_workers=4) as ex:
         f_mc = ex.submit(vlib.tlc, MODULE, T["mc"], None, 8, T["mc_stop"] + 600, T["mc_stop"])
         f_sim = ex.submit(base.simulate, T["sim"][0], T["sim"][1], T["sim"][2], seed, "crashsim")
-        f_att = list(ex.map(_attack, ATTACKS))
+        f_att = ex.submit(_attacks)
         by_mode = {"crash": [], "replay": []}
-        for cfg, desc, mode, ra in f_att:
+        for cfg, desc, mode, ra in f_att.result():
             if ra.error:
                 raise vlib.MachineryError("config %s: %s" % (cfg, ra.error))
             if not ra.violation:
